@@ -43,6 +43,8 @@ macro_rules! harness {
 pub mod h_bloom;
 pub mod h_cms;
 pub mod h_hll;
+pub mod h_mem;
+pub mod h_qf;
 pub mod h_reservoir;
 
 pub mod registry;
